@@ -3,10 +3,10 @@
 #   with the patch: builds, the 76 baseline tests pass (same 4 fail), the demonstration fails;
 #   without the patch: the demonstration passes.  Writes /tmp/seed_<Cxx>/out/confirm.txt
 set -u
-P=$1; W=/tmp/seed_$P; O=$W/out
+P=$1; W=${2:-/tmp/seed_$P}; O=$W/out
 cd $W || exit 2
 export CARGO_NET_OFFLINE=true
-demo=$(ls tests/seed_*.rs 2>/dev/null | head -1)
+demo=$(ls tests/seed*_*.rs 2>/dev/null | head -1)
 {
 echo "== seed $P confirm $(date -u +%FT%TZ)"
 echo "patch: $(grep -c '^+[^+]' $O/patch.diff) added / $(grep -c '^-[^-]' $O/patch.diff) removed lines; files: $(grep '^+++ ' $O/patch.diff | tr '\n' ' ')"
